@@ -66,6 +66,10 @@ inductive StepRes
   | stepped (r : Resp) (env : Env) (ev : Ev)
   deriving Inhabited
 
+def StepRes.env : StepRes → Env
+  | .stepped _ e _ => e
+  | .blocked e => e
+
 /-- The effect of one operation of thread `t`. `fault = true` makes a raw-lock operation
 panic *before* it has any effect on the raw lock; happylock's wrapper then sets `killed`.
 `ThreadKey::get` is modelled as the code is after the `then(|| …)` repair (test-and-set);
